@@ -77,8 +77,8 @@ pub fn main(args: &[String]) {
         crate::oracles::all_module_oracles(name, wasm, &mut viol);
         let win = match wmodcoq::wmod(wasm, false) { Some(s) => s, None => { n_unmodelled += 1; continue } };
         // configurations: fixtures get the default-like config and GC; generated inputs rotate through all combinations
-        let cfgs: Vec<Cfg> = if idx < n_fix { vec![Cfg { names: true, producers: false, gc: false, only_stable: false, synthetic: false }, Cfg { names: true, producers: true, gc: true, only_stable: false, synthetic: false }] }
-            else { let b = r.below(16); vec![Cfg { names: b & 1 == 0, producers: b & 2 == 0, gc: b & 4 != 0, only_stable: false, synthetic: b & 8 != 0 && r.chance(1, 3) }] };
+        let cfgs: Vec<Cfg> = if idx < n_fix { vec![Cfg { names: true, producers: false, gc: false, only_stable: false, synthetic: false }, Cfg { names: true, producers: true, gc: true, only_stable: false, synthetic: false }, Cfg { names: true, producers: false, gc: false, only_stable: false, synthetic: true }] }
+            else { let b = r.below(16); vec![Cfg { names: b & 1 == 0, producers: b & 2 == 0, gc: b & 4 != 0, only_stable: false, synthetic: b & 8 != 0 && r.chance(1, 2) }] };
         for cfg in cfgs {
             let (obs, wout, out_bytes) = match run_walrus(wasm, &cfg) {
                 Outcome::Out(o) => { match wmodcoq::wmod(&o, false) { Some(s) => (0, s, Some(o)), None => { viol.push(Json::obj(vec![("class", Json::s("output-undecodable")), ("props", Json::s("C02")), ("what", Json::s(format!("{}: emitted module cannot be decoded", name))), ("input", Json::s(crate::c03::hex(wasm)))])); continue } } }
